@@ -137,7 +137,8 @@ impl<'a> P<'a> {
             }
             self.i += 1;
         }
-        Ok(self.t[start + 1..self.i - 1].iter().map(|t| t.tok.show()).collect::<Vec<_>>().join(" "))
+        // placeholders inside the text are written without their number (the numbering is C01's business)
+        Ok(self.t[start + 1..self.i - 1].iter().map(|t| if matches!(t.tok, Tok::Param(_)) { "?".to_string() } else { t.tok.show() }).collect::<Vec<_>>().join(" "))
     }
 
     fn starts_subquery(&self) -> bool {
